@@ -83,6 +83,28 @@ def option_overrides(p: T.Dict[str, T.Any], rnd: random.Random) -> T.List[str]:
     return args
 
 
+def subdir_matrix_project() -> T.Dict[str, T.Any]:
+    """install_subdir() with every combination of strip_directory and install_dir form (plain string, derived from
+    an option value, absolute), in the main project and in a subproject - always part of the run."""
+    installs = []
+    k = 0
+    for sp in ('', 'sp1'):
+        for strip in (False, True):
+            for how in ('plain', 'option', 'abs', 'default'):
+                k += 1
+                it: T.Dict[str, T.Any] = {'kind': 'subdir', 'sp': sp, 'files': [f'sd{k}', 'f1.txt', 'sub/f2.txt'], 'strip': strip}
+                if how == 'plain':
+                    it['install_dir'] = f'share/plain{k}'
+                elif how == 'abs':
+                    it['install_dir'] = f'/abs/sd{k}'
+                elif how == 'option':
+                    opt = ('datadir', 'libdir', 'includedir')[k % 3]
+                    it['install_dir'] = '{%s}/x%d' % (opt, k)
+                    it['dir_expr'] = f"get_option('{opt}') / 'x{k}'"
+                installs.append(it)
+    return projgen.normalize({'name': 'sdm', 'lang': '', 'installs': installs})
+
+
 def to_trace(case: T.Dict[str, T.Any]) -> T.Dict[str, T.Any]:
     v = case['views']
     d = {'id': case['id'], 'p': case['p'], 'has_p': case['kind'] == 'proj', 'M': v['M']}
@@ -182,6 +204,8 @@ def main(chk: Check) -> None:
         pre = r2.choice(['/usr/local', '/usr', '/opt/p q'])
         jobs.append({'id': f'D{k}', 'kind': 'proj', 'p': p, 'views': True, 'backend': 'none', 'install': True,
                      'run_tests': True, 'flavour': f'data#{k}', 'extra_args': [f'--prefix={pre}'] + option_overrides(p, r2)})
+    jobs.append({'id': 'S0', 'kind': 'proj', 'p': subdir_matrix_project(), 'views': True, 'backend': 'none', 'install': True,
+                 'run_tests': False, 'flavour': 'install_subdir-matrix', 'extra_args': ['--prefix=/usr/zz', '-Ddatadir=share/dd']})
     dirs = bv.corpus_dirs()
     if len(dirs) > n_corpus:
         dirs = sorted(rnd.sample(dirs, n_corpus))
@@ -192,7 +216,7 @@ def main(chk: Check) -> None:
     with ProcessPoolExecutor(max_workers=common.NCPU) as ex:
         futs = [ex.submit(_run_job, j) for j in jobs]
         fam = model_check(chk, quick)
-        ok = [dict(p, family=f) for f in ('f1', 'f2', 'f3') for p in fam[f] if not p['x']['collides']]
+        ok = [dict(p, family=f) for f in ('f1', 'f2', 'f3', 'f4') for p in fam[f] if not p['x']['collides']]
         fjobs = []
         for k, p in enumerate(rnd.sample(ok, min(len(ok), n_family))):
             p.pop('x')
